@@ -108,8 +108,8 @@ Section Decoders.
   Definition rstrip_nul (l : list Z) : list Z :=
     rev ((fix go (r : list Z) : list Z := match r with 0 :: r' => go r' | _ => r end) (rev l)).
 
-  (* dns.edns option classes (cls.from_wire_parser + the constructor's validation); the option
-     codes 22-25 have classes that are not modelled (the harness does not send them) *)
+  (* dns.edns option classes (cls.from_wire_parser + the constructor's validation); NSID and unknown codes are
+     get_remaining *)
   Definition dec_ecs : M unit :=
     dom h <- get_struct wire [2; 1; 1];
     match h with
@@ -135,14 +135,20 @@ Section Decoders.
     dom text <- get_remaining wire;
     match text with
     | [] => ret tt
-    | _ => if utf8_valid (rstrip_nul text) then ret tt else raise (XInt iValueError)   (* UnicodeDecodeError *)
+    | _ => if utf8_valid (rstrip_nul text) then ret tt else raise (XLib eFormError)   (* _decode_utf8 *)
     end.
+
+  (* EDE-EXTRA-TEXT-LANGUAGE, FILTERING-CONTACT / -ORGANIZATION / -DB: cls(_decode_utf8(get_remaining())) *)
+  Definition dec_text_option : M unit :=
+    dom text <- get_remaining wire;
+    if utf8_valid text then ret tt else raise (XLib eFormError).
 
   Definition dec_option (otype : Z) : M unit :=
     if otype =? 8 then dec_ecs
     else if otype =? 10 then dec_cookie
     else if otype =? 15 then dec_ede
     else if otype =? 18 then dom _ <- get_name wire None; ret tt
+    else if (22 <=? otype) && (otype <=? 25) then dec_text_option
     else dom _ <- get_remaining wire; ret tt.      (* NSID and GenericOption *)
 
   (* OPT.from_wire_parser: while remaining > 0: (otype, olen) = get_struct("!HH");
